@@ -663,7 +663,13 @@ def run(ctx, only_cases=None):
         "python_reference_checked": ref_checked, "combinator_histogram": dict(sorted(kinds_hist.items())), "match_outcomes": outcome_hist,
         "text_lengths": {str(k): sum(1 for c in cases if len(c.text) == k) for k in sorted(set(len(c.text) for c in cases))},
         "compiled_bytecode_validated_against_source": sum(1 for c in cases if c.model.get(("validate", "compile")) == "V1"),
-        "compile_model_words_equal_real": sum(1 for c in cases if ("cmodel", "compile") in c.model),
+        "compile_model_compared_with_real": sum(1 for c in cases if c.model.get(("cmodel", "compile"), "-") != "-"),
+        "compile_model_words_equal_real": sum(1 for c in cases if c.dump and c.model.get(("cmodel", "compile")) == c.dump + " E0"),
+        "compile_model_rejected_not_compared": sum(1 for c in cases if c.model.get(("cmodel", "compile")) == "-"),
+        "compile_model_recursive_grammars": sum(1 for c in cases if c.model.get(("cmodel", "compile"), "-") != "-" and peggen.canon_tags(c.g)[1]),
+        "compile_model_fraction_of_compiled_grammars": "%d/%d" % (
+            sum(1 for c in cases if c.dump and c.model.get(("cmodel", "compile")) == c.dump + " E0"),
+            sum(1 for c in cases if c.dump and c.dump.startswith("B "))),
         "validation_expected": sum(1 for c in cases if getattr(c, "expect_valid", False)),
         "model_timeouts": sum(1 for c in cases if getattr(c, "model_timeout", False)),
         "disagreements": len(diffs_all), "crashes": len(crashes), "lenprefix_mode_leak_in_source": bool(leak & 1), "number_raw_accumulate_in_source": bool(leak & 2),
@@ -671,8 +677,13 @@ def run(ctx, only_cases=None):
     return ctx.finish("proof", cov, assumptions=[
         "Spec = documented meaning of each combinator read as one instruction of the denotational semantics (Peg/Spec.lean, Peg/Den.lean); "
         "where documentation is silent the observed behaviour is followed (notes/C12.md)",
-        "compiled-vs-source: the REAL compiler's output is validated per grammar by a proved-sound validator (compile_validated_correct); "
-        "a general theorem about a model of peg_compile1 is not proved (the compile model is compared word by word with the real output)",
+        "compiled-vs-source: compile_correct is proved for EVERY grammar accepted by the executable model of peg_compile1 "
+        "(Peg/Compile.lean: all of peg_specials, rule cache, keyword references, nested and recursive grammars, constants); the model is "
+        "tied to peg.c by comparing has_backref, bytecode and constants word for word with the real peg/compile on every generated "
+        "grammar (fraction in coverage.compile_model_fraction_of_compiled_grammars); tags are numbered by the harness in emit_tag order; "
+        "the REAL compiler's output is additionally validated per non-recursive grammar by the proved-sound validator",
+        "Env.stackn (janet_vm.stackn at entry, used by the C-stack charge around capture functions) is 0 in the driver: the "
+        "'C stack recursed too deeply' error of RULE_REPLACE/RULE_MATCHTIME is modelled and covered by op_eq_den but not exercised by correspondence",
         "number scanning, janet_to_string of non-modelled values, user functions other than the harness' f-* are outside the model"])
 
 
